@@ -1357,12 +1357,147 @@ def search(ctx):
         ctx.searched += 1
         if k % 5 == 0:
             guarded(ctx, "C19/heap", {}, heap_history, ctx, rng, [], {})
+        if k % 1000 == 0:
+            video_reader_cases(ctx, 20)
         if k % 25 == 0:
             guarded(ctx, "C19/importer-generator", {}, generator_case, ctx, rng, [], {})
             guarded(ctx, "C19/map-noncallable", {}, noncallable_case, ctx, rng, [], {})
         if ctx.failures:
             return True
     return False
+
+
+# ------------------------------------------------------------------------------------------------ real video reader
+# The importer-built video lists above replace the frame reader by a logging fake.  This family keeps menpo's own
+# FFMpegVideoReader (menpo/io/input/video.py: the stateful object behind every lazy list of import_video) and only
+# substitutes the two external programs, through the documented MENPO_FFMPEG_CMD / MENPO_FFPROBE_CMD variables, by
+# stand-ins that stream frame k as H*W*3 bytes of value k and honour `-ss`.  The clip is larger than a pipe buffer so
+# the process is still streaming between two reads (seeded C19-4: a repeated read of the same frame returned the next).
+
+_FAKE_FFMPEG = """#!%(py)s
+import os, sys
+N, H, W, FPS = %(N)d, %(H)d, %(W)d, %(FPS)d
+args = sys.argv[1:]
+start = 0
+if "-ss" in args:
+    start = int(round(float(args[args.index("-ss") + 1]) * FPS))
+out = sys.stdout.buffer
+try:
+    for k in range(start, N):
+        out.write(bytes([k]) * (H * W * 3))
+        out.flush()
+except (BrokenPipeError, OSError):
+    pass
+os._exit(0)
+"""
+_FAKE_FFPROBE = """#!%(py)s
+print("width=%(W)d")
+print("height=%(H)d")
+print("avg_frame_rate=%(FPS)d/1")
+print("duration=%(dur)r")
+print("nb_read_frames=%(N)d")
+"""
+
+
+def video_reader_cases(ctx, n_cases):
+    """random programs over a lazy list of REAL FFMpegVideoReader frames against the ordinary list of frame numbers"""
+    import shutil
+    import stat
+    import sys
+    import tempfile
+    import numpy as np
+    import menpo.io as mio
+    rng = ctx.rng
+    N, H, W, FPS = 48, 64, 64, 25
+    tmp = tempfile.mkdtemp(prefix="c19vid_")
+    saved = {k: os.environ.get(k) for k in ("MENPO_FFMPEG_CMD", "MENPO_FFPROBE_CMD")}
+    import menpo.io.input.video as vid
+    standin_reader = vid.FFMpegVideoReader
+    if FX[0] is not None and getattr(FX[0], "saved_reader", None) is not None:
+        vid.FFMpegVideoReader = FX[0].saved_reader       # menpo's own reader (the fixture put a logging fake there)
+    cur, CUR[0] = CUR[0], None
+    try:
+        fmt = dict(py=sys.executable, N=N, H=H, W=W, FPS=FPS, dur=N / float(FPS))
+        for name, text in (("ffmpeg", _FAKE_FFMPEG), ("ffprobe", _FAKE_FFPROBE)):
+            path = os.path.join(tmp, name)
+            with open(path, "w") as f:
+                f.write(text % fmt)
+            os.chmod(path, os.stat(path).st_mode | stat.S_IXUSR)
+            os.environ["MENPO_" + name.upper() + "_CMD"] = path
+        clip = os.path.join(tmp, "clip.avi")
+        with open(clip, "wb") as f:
+            f.write(b"stand-in")
+
+        def fid(im):
+            px = im.pixels
+            lo, hi = int(px.min()), int(px.max())
+            return lo if lo == hi else ("mixed", lo, hi)
+
+        for c in range(n_cases):
+            rp = {"family": "real FFMpegVideoReader behind stand-in ffmpeg/ffprobe", "frames": N}
+            try:
+                ll = mio.import_video(clip, normalize=False)
+                ref = list(range(N))
+                if len(ll) != N:
+                    ctx.fail("C19/video-reader", "length", "import_video list has length %d, the clip %d frames" % (len(ll), N), rp)
+                    continue
+                steps, got, want = [], [], []
+                cp = None
+                for _ in range(rng.randint(4, 9)):
+                    kind = rng.choice(["int", "int", "same", "repeat", "fancy", "copy", "add", "back", "iterprefix"])
+                    if kind == "int":
+                        i = rng.randint(-N, N - 1)
+                        steps.append("ll[%d]" % i); got.append(fid(ll[i])); want.append(ref[i])
+                    elif kind == "same":
+                        i = rng.randint(0, N - 1)
+                        k = rng.randint(2, 3)
+                        steps.append("ll[%d] x%d" % (i, k)); got += [fid(ll[i]) for _ in range(k)]; want += [ref[i]] * k
+                    elif kind == "back":
+                        i = rng.randint(1, N - 1)
+                        steps.append("ll[%d], ll[%d]" % (i, i - 1)); got += [fid(ll[i]), fid(ll[i - 1])]; want += [ref[i], ref[i - 1]]
+                    elif kind == "repeat":
+                        a = rng.randint(0, N - 4); b = a + rng.randint(1, 3); k = rng.randint(2, 3)
+                        steps.append("list(ll[%d:%d].repeat(%d))" % (a, b, k))
+                        got += [fid(x) for x in ll[a:b].repeat(k)]; want += [x for x in ref[a:b] for _ in range(k)]
+                    elif kind == "fancy":
+                        idx = [rng.randint(0, N - 1) for _ in range(rng.randint(2, 5))]
+                        idx.insert(rng.randrange(len(idx)), idx[rng.randrange(len(idx))])   # a repeated index, adjacent or not
+                        idx.sort(key=lambda _: rng.random())
+                        j = rng.randrange(len(idx)); idx.insert(j, idx[j])                  # certainly adjacent
+                        steps.append("list(ll[%r])" % (idx,))
+                        got += [fid(x) for x in ll[idx]]; want += [ref[i] for i in idx]
+                    elif kind == "copy":
+                        cp = ll.copy()
+                        i = rng.randint(0, N - 2)
+                        steps.append("ll[%d], copy[%d], ll[%d], copy[%d]" % (i, i, i + 1, i + 1))
+                        got += [fid(ll[i]), fid(cp[i]), fid(ll[i + 1]), fid(cp[i + 1])]; want += [ref[i], ref[i], ref[i + 1], ref[i + 1]]
+                    elif kind == "add":
+                        a = rng.randint(0, N - 3)
+                        steps.append("list(ll[%d:%d] + ll[%d:%d] + ll[%d:%d])" % (a, a + 1, a, a + 1, a, a + 2))
+                        got += [fid(x) for x in (ll[a:a + 1] + ll[a:a + 1] + ll[a:a + 2])]; want += ref[a:a + 1] + ref[a:a + 1] + ref[a:a + 2]
+                    else:
+                        k = rng.randint(1, 4)
+                        it = iter(ll)
+                        steps.append("first %d of iter(ll)" % k)
+                        got += [fid(next(it)) for _ in range(k)]; want += ref[:k]
+                rp["steps"] = steps
+                ctx.count("video-reader:ops:%d" % len(steps))
+                ctx.case(("video-reader",) + tuple(steps), nontrivial=True, sample={"video_reader_steps": steps} if c == 0 else None)
+                ctx.check(got == want, "C19/video-reader", "value",
+                          "frames read %r, the ordinary list of frames gives %r (steps %r)" % (got, want, steps), rp)
+            except Exception as e:  # an exception out of menpo code is an oracle failure, not a harness crash
+                ctx.fail("C19/video-reader", "raises", "%s: %s" % (type(e).__name__, e), rp)
+            finally:
+                ll = cp = None
+    finally:
+        vid.FFMpegVideoReader = standin_reader
+        CUR[0] = cur
+        for k, v in saved.items():
+            if v is None:
+                os.environ.pop(k, None)
+            else:
+                os.environ[k] = v
+        shutil.rmtree(tmp, ignore_errors=True)
 
 
 def zero_d_verdict(model_coded, model_repaired, obs):
@@ -1422,6 +1557,7 @@ def _run(ctx):
         guarded(ctx, "C19/importer-generator", {}, generator_case, ctx, rng, lines, pend)
     for _ in range(ctx.n(250, 6000)):
         guarded(ctx, "C19/map-noncallable", {}, noncallable_case, ctx, rng, lines, pend)
+    video_reader_cases(ctx, ctx.n(25, 400))
     model = common.run_driver(PROP, lines)
     for cid, (o, rp, op) in pend.items():
         if model[cid] != o:
